@@ -4,6 +4,7 @@ from __future__ import annotations
 
 from dataclasses import dataclass
 
+from sa.anchors import is_helper
 from sa import terms as T
 from sa.core import AnalysisError
 from sa.symexec import Executor
@@ -112,7 +113,7 @@ def table_history(ctx, which, rule):
     m = p.find_method(k, 'metarize')
     if m is None:
         raise AnalysisError(rule, 'anchor method vanished: CeiloChunk.metarize')
-    ex = Executor(p, inline=lambda q, d: q.startswith('ampycloud.data.'), max_depth=6)
+    ex = Executor(p, inline=lambda q, d: q.startswith('ampycloud.data.') or is_helper(p, q), max_depth=6)
     s = ex.run(m, {'which': C(which)})
     stores = [e for e in s.events if e.kind == 'store' and tag(e.target) == 'attr' and e.target[1] == SELF
               and e.target[2] == '_' + which and e.guard != T.FALSE]
